@@ -171,6 +171,13 @@ class Interp:
         for _ in range(n):
             await instant
 
+    async def op_SPINLOG(self, act, pc, n):
+        """a competing runnable activity: takes n turns in the current time step, logging each"""
+        for i in range(n):
+            self.ctx.rec('turn', act, pc, i)
+            await instant
+        self.ctx.rec('turn', act, pc, n)
+
     async def op_WAIT(self, act, pc, e):
         r = await self.cond(e)
         # the values of all atoms at the very moment the wait returns (same activation, no await in between)
@@ -359,11 +366,16 @@ class Interp:
         return await self.ctx.scopes[scope]
 
     # -- flow ------------------------------------------------------------------------------------
-    async def op_INTERVAL(self, act, pc, period, n, bodies):
-        """async for over interval(period); i-th body run is bodies[i]; leave after n ticks"""
+    async def op_INTERVAL(self, act, pc, period, n, bodies, pre=None):
+        """async for over interval(period); i-th body run is bodies[i]; leave after n ticks.
+        pre: create the iterator first, then wait `pre`, then iterate"""
         ctx = self.ctx
         count = 0
-        async for now in interval(period):
+        it = interval(period)
+        if pre:
+            await (time + pre)
+        ctx.rec('iter-begin', act, pc, None)
+        async for now in it:
             ctx.rec('tick', act, pc, now)
             body = bodies[count] if count < len(bodies) else []
             count += 1
@@ -372,10 +384,14 @@ class Interp:
                 break
         return count
 
-    async def op_DELAYLOOP(self, act, pc, period, n, bodies):
+    async def op_DELAYLOOP(self, act, pc, period, n, bodies, pre=None):
         ctx = self.ctx
         count = 0
-        async for now in delay(period):
+        it = delay(period)
+        if pre:
+            await (time + pre)
+        ctx.rec('iter-begin', act, pc, None)
+        async for now in it:
             ctx.rec('tick', act, pc, now)
             body = bodies[count] if count < len(bodies) else []
             count += 1
